@@ -5,45 +5,42 @@ From RV Require Import Base.PyNum Algo.DominantBpm Algo.ScrollSpeed Algo.Analysi
 Import ListNotations.
 Open Scope Q_scope.
 
-(* For every chart in the property's domain (>= 1 tempo point at or before the first object, >= 1 object, no two
-   tempo points at one time, bpm > 0) whose tempo ROWS are in time order and whose last timed row is a note,
-   dominant_bpm returns a bpm value of the chart whose total active time between the first tempo point and
-   the last object is maximal. *)
-Theorem C19_dominant_is_argmax : forall c,
-  wf_chart c = true -> ssortedb (tempo_times c) = true -> last_is_noteb c = true ->
-  dominant_spec 0 c (dominant_bpm c).
+(* For EVERY chart in the property's domain (>= 1 tempo point at or before the first object, >= 1 object, no two
+   tempo points at one time, bpm > 0) -- tempo rows in any row order, tempo points or SVs after the last note
+   included -- dominant_bpm returns a bpm value of the chart whose total active time between the first tempo
+   point and the last object is maximal. *)
+Theorem C19_dominant_is_argmax : forall c, wf_chart c = true -> dominant_spec 0 c (dominant_bpm c).
 Proof. exact dominant_is_argmax. Qed.
 
-(* Without those two guards the statement is false of the (faithful) model: *)
-Theorem C19_dominant_is_argmax_refuted_unsorted :
-  exists c, wf_chart c = true /\ last_is_noteb c = true /\ ssortedb (tempo_times c) = false
-            /\ dominant_bpm c = Some 120 /\ ~ dominant_spec 0 c (dominant_bpm c).
-Proof. exact dominant_is_argmax_refuted_unsorted. Qed.
-Theorem C19_dominant_is_argmax_refuted_tempo_after_last :
-  exists c, wf_chart c = true /\ ssortedb (tempo_times c) = true /\ last_is_noteb c = false
-            /\ dominant_bpm c = Some 240 /\ ~ dominant_spec 0 c (dominant_bpm c).
-Proof. exact dominant_is_argmax_refuted_tempo_after_last. Qed.
-Theorem C19_dominant_is_argmax_refuted_sv_after_last :
-  exists c, wf_chart c = true /\ ssortedb (tempo_times c) = true /\ last_is_noteb c = false
-            /\ dominant_bpm c = Some 240 /\ ~ dominant_spec 0 c (dominant_bpm c).
-Proof. exact dominant_is_argmax_refuted_sv_after_last. Qed.
-(* ... and scroll_speed / sv_normalize inherit the wrong reference on the same witnesses (oracle level) *)
-Theorem C19_inherited_reference_refuted_oracle :
-  forallb (fun c => wf_chart c && negb (scroll_specb 0 c None (scroll_speed c None)))
-          [witness_unsorted; witness_tempo_after_last; witness_sv_after_last] = true
-  /\ norm_specb 0 witness_sv_after_last None (sv_normalize witness_sv_after_last None) = false.
-Proof. exact inherited_reference_refuted_oracle. Qed.
+(* Why /repo commit d3e6d46 was needed: the statement is false of the OLD model [dominant_bpm_old]
+   (Algo/DominantBpm.v, end of file): unsorted tempo rows / tempo point after the last note / SV after it. *)
+Theorem C19_dominant_old_refuted_unsorted :
+  exists c, wf_chart c = true /\ dominant_bpm_old c = Some 120 /\ ~ dominant_spec 0 c (dominant_bpm_old c).
+Proof. exact dominant_old_refuted_unsorted. Qed.
+Theorem C19_dominant_old_refuted_tempo_after_last :
+  exists c, wf_chart c = true /\ dominant_bpm_old c = Some 240 /\ ~ dominant_spec 0 c (dominant_bpm_old c).
+Proof. exact dominant_old_refuted_tempo_after_last. Qed.
+Theorem C19_dominant_old_refuted_sv_after_last :
+  exists c, wf_chart c = true /\ dominant_bpm_old c = Some 240 /\ ~ dominant_spec 0 c (dominant_bpm_old c).
+Proof. exact dominant_old_refuted_sv_after_last. Qed.
 
 (* SV normalisation returns exactly one SV per tempo point, at its time, with multiplier * bpm = reference, where
-   the reference is the override (any override > 0, any row order) or, without override, a dominant bpm (under
-   the guard of C19_dominant_is_argmax). *)
+   the reference is the override (any override > 0) or, without override, a dominant bpm -- for every osu/Quaver
+   chart of the domain in any row order. *)
 Theorem C19_sv_normalize_spec : forall c ov,
-  wf_chart c = true -> wf_override ov = true -> ref_guard c ov = true -> c_svs c <> None ->
-  norm_spec 0 c ov (sv_normalize c ov).
+  wf_chart c = true -> wf_override ov = true -> c_svs c <> None -> norm_spec 0 c ov (sv_normalize c ov).
 Proof. exact sv_normalize_spec. Qed.
 
-(* PARTIAL (see Proofs/AnalysisProofs.v, section D, for the full statement and what is missing): scroll speed is
-   bpm/ref * SV at every breakpoint and every tempo/SV point is a breakpoint, for every chart of the small scope. *)
+(* Scroll speed, games without SVs (BMS, O2Jam, StepMania): for EVERY chart of the domain (any row order), every
+   override > 0 or none, the speed at every breakpoint is active bpm / reference and every tempo point is a
+   breakpoint (induction over stable sort / ffill / bfill / drop_duplicates). *)
+Theorem C19_scroll_speed_spec_nosv : forall c ov,
+  wf_chart c = true -> wf_override ov = true -> c_svs c = None -> scroll_spec 0 c ov (scroll_speed c ov).
+Proof. exact scroll_speed_spec_nosv. Qed.
+
+(* PARTIAL, charts WITH an SV list (osu, Quaver) -- see Proofs/AnalysisProofs.v, section D, for the full statement
+   and exactly what is missing: scroll speed is bpm/ref * SV at every breakpoint and every tempo/SV point is a
+   breakpoint, for every chart of the exhaustive small scope. *)
 Theorem C19_scroll_speed_spec_partial : forall b s n,
   In b small_tempos -> In s small_svs -> In n small_notes -> wf_chart (mkChart b s n) = true ->
   exists o, scroll_speed_with (mkChart b s n) 3 = Some o /\ scroll_ok 0 (mkChart b s n) 3 o.
@@ -59,12 +56,12 @@ Proof. exact scroll_specb_sound. Qed.
 Theorem C19_norm_oracle_sound : forall tol c ov out, norm_specb tol c ov out = true -> norm_spec tol c ov out.
 Proof. exact norm_specb_sound. Qed.
 
-(* non-vacuity: a chart with a repeated bpm value, an SV at a tempo point, two SVs at one time and an SV before
-   the first tempo point satisfies every hypothesis above, and the three routines return what the property says *)
+(* non-vacuity: a chart with UNSORTED tempo rows, a repeated bpm value, a tempo point and an SV after the last
+   note, an SV at a tempo point, two SVs at one time and an SV before the first tempo point is in the domain, and
+   the three routines return what the property says *)
 Example C19_nonvacuous :
-  let c := mkChart [(0, 120); (1000, 240); (2000, 120); (2500, 60)]
-                   (Some [(-500, 2); (1000, 1 # 2); (1500, 2); (1500, 3)]) [0; 2750; 4000] in
-  wf_chart c && ssortedb (tempo_times c) && last_is_noteb c && ref_guard c None
-  && dominant_specb 0 c (dominant_bpm c) && scroll_specb 0 c None (scroll_speed c None)
-  && norm_specb 0 c (Some 90) (sv_normalize c (Some 90)) = true.
+  let c := mkChart [(1000, 240); (0, 120); (2500, 60); (2000, 120); (9000, 480)]
+                   (Some [(-500, 2); (1000, 1 # 2); (1500, 2); (1500, 3); (9500, 4)]) [0; 2750; 4000] in
+  wf_chart c && dominant_specb 0 c (dominant_bpm c) && scroll_specb 0 c None (scroll_speed c None)
+  && norm_specb 0 c (Some 90) (sv_normalize c (Some 90)) && norm_specb 0 c None (sv_normalize c None) = true.
 Proof. vm_compute. reflexivity. Qed.
